@@ -930,6 +930,14 @@ def process_extract(block_text, tmpl_path, tmpl_line, report):
             info['clauses'] += count_clauses(payload)
         else:
             raise Unsupported(f'{tmpl_path}:{ln}: unknown directive @{d}')
+    # T14: bare ALL_CAPS identifiers the function mentions (candidate module-level consts of the same source file)
+    caps = []
+    for i in range(len(ft.s)):
+        t = ft.stok(i)
+        if t.kind == 'ident' and t.start > ft.body_open and re.fullmatch(r'[A-Z][A-Z0-9_]{2,}', t.text) \
+                and ft.stok(i - 1).text not in ('::', '.') and t.text not in caps:
+            caps.append(t.text)
+    info['bare_caps'] = caps
     report['functions'].append(info)
     pieces = ft.render()
     for h in helpers:
@@ -1147,6 +1155,28 @@ def generate(tmpl_path, out_path):
         pos = m.end()
     pieces.append((text[pos:], ('tmpl', text.count('\n', 0, pos) + 1)))
     out = ''.join(p[0] for p in pieces)
+    # T14: a module-level `const NAME: T = <init>;` of the source file that an extracted function mentions and that the
+    # unit does not define is copied verbatim to the end of the verus! block (real code, nothing assumed): a change that
+    # introduces such a constant stays decidable.  Anything that is not a plain module-level const is left alone.
+    hoisted = []
+    for info in report['functions']:
+        for name in info.get('bare_caps', []):
+            if re.search(r'\b(const|static|fn|struct|enum|type)\s+' + name + r'\b', out) or name in [h[0] for h in hoisted]:
+                continue
+            try:
+                src = open(os.path.join(REPO, info['file']), encoding='utf-8').read()
+            except OSError:
+                continue
+            m = re.search(r'^(?:pub(?:\([a-z]+\))?\s+)?const\s+' + name + r'\s*:\s*([^=;]+?)\s*=\s*([^;]+);', src, re.M)
+            if m:
+                ty = re.sub(r'&\s*(?!\')', "&'static ", m.group(1).strip())
+                hoisted.append((name, f'// T14: const taken verbatim from {info["file"]}\npub const {name}: {ty} = {m.group(2).strip()};\n'))
+    if hoisted:
+        k = out.rfind('} // verus!')
+        if k >= 0:
+            out = out[:k] + ''.join(h[1] for h in hoisted) + out[k:]
+            pieces.append((''.join(h[1] for h in hoisted), ('tmpl', 0)))  # keeps the line map length in step (appended lines)
+        report['hoisted_consts'] = [h[0] for h in hoisted]
     # line map
     linemap = []
     for txt, origin in pieces:
